@@ -1,12 +1,12 @@
-(* Properties/C04.v -- The decoder accepts every standard-conformant codeword stream (the part that is a theorem). *)
+(* Properties/C04.v -- The decoder accepts every standard-conformant codeword stream. *)
 From Coq Require Import NArith List Bool.
-From DM Require Import Generated.ModeTables Model.Outcome Model.Dec Spec.Stream16022 Proofs.DecStream Proofs.DecStreamC40 Proofs.DecScript.
+From DM Require Import Generated.ModeTables Model.Outcome Model.Dec Spec.Stream16022 Proofs.DecStream Proofs.DecStreamC40
+  Proofs.DecStreamEdi Proofs.DecScript.
 Import ListNotations.
 Local Open Scope N_scope.
 
-(* For ASCII, Base256, C40, Text and X12 runs and padding -- five of the six encodation schemes of ISO/IEC 16022 --
-   the statement holds for ALL inputs and ALL encoder choices: whatever script an independent encoder follows,
-   i.e. any sequence of
+(* For ALL inputs and ALL encoder choices over all six encodation schemes of ISO/IEC 16022: whatever script an
+   independent encoder follows, i.e. any sequence of
      - ASCII runs (each digit pair encoded as a pair or as two single characters, bytes >= 128 via Upper Shift),
      - Base256 runs (any length 1..1555 with a one- or two-codeword length field, or, as the last segment, the
        run-to-the-end-of-symbol form),
@@ -14,6 +14,9 @@ Local Open Scope N_scope.
        Shift-1 filler value completing the last triple), ended by Unlatch or -- at the end of the symbol -- by
        nothing, possibly followed by one last ASCII-encoded codeword,
      - X12 runs over the X12 alphabet with the same two ways of ending,
+     - EDIFACT runs over the characters 32..94, ended by the unlatch value 31 in any of the four positions of a group
+       (not inside the last two codewords of the symbol, which are ASCII by rule) or -- after complete groups, at the
+       end of the symbol -- by nothing, followed by at most two ASCII-encoded codewords,
    followed by any amount of correct padding (i.e. any symbol capacity), the model of data::decode_data returns
    exactly the bytes the script encodes.  `stream`, `script_ok`, `meaning` are defined in Spec/Stream16022.v from the
    encoder's side of the standard (Tables 2 and 3, 5.2.x, Annex B), without reference to the decoder. *)
@@ -21,6 +24,21 @@ Theorem C04_scripts : forall segs npad, script_ok segs npad = true ->
   decode_data (stream segs npad) = Ok (meaning segs).
 Proof. exact decode_script. Qed.
 Print Assumptions C04_scripts.
+
+(* the same scripts behind a Macro 05 / Macro 06 codeword come back inside the macro header and trailer, and behind
+   an FNC1 in first position come back unchanged *)
+Theorem C04_macro05 : forall segs npad, script_ok segs npad = true ->
+  decode_data (stream_with 236 segs npad) = Ok (MACRO05_HEAD ++ meaning segs ++ MACRO_TRAIL).
+Proof. intros segs npad OK. apply decode_script_macro; [left; split; reflexivity|exact OK]. Qed.
+Print Assumptions C04_macro05.
+Theorem C04_macro06 : forall segs npad, script_ok segs npad = true ->
+  decode_data (stream_with 237 segs npad) = Ok (MACRO06_HEAD ++ meaning segs ++ MACRO_TRAIL).
+Proof. intros segs npad OK. apply decode_script_macro; [right; split; reflexivity|exact OK]. Qed.
+Print Assumptions C04_macro06.
+Theorem C04_fnc1 : forall segs npad, script_ok segs npad = true ->
+  decode_data (stream_with 232 segs npad) = Ok (meaning segs).
+Proof. exact decode_script_fnc1. Qed.
+Print Assumptions C04_fnc1.
 
 (* the two randomising algorithms of Annex B are undone by the decoder at every position *)
 Theorem C04_randomisers : forall pos,
@@ -35,14 +53,18 @@ Theorem C04_c40_tables : forall text ch out, ch < 256 ->
 Proof. intros text ch out H. exact (proj2 (c40_char text ch out H)). Qed.
 Print Assumptions C04_c40_tables.
 
-(* NOT a theorem here: scripts containing EDIFACT runs and Macro/FNC1/ECI headers.  Those are decided per case: an
-   independent reference encoder (tools/props/refenc.py) draws random legal scripts over all six modes with every
-   termination form and capacity, and the implementation (tied to this model by the correspondence) must decode
-   each stream to the script's bytes. *)
+(* What the theorem's domain leaves out, and what decides it: encoder freedoms not expressible as a script of
+   Spec/Stream16022.v (shift values followed by further shift values, FNC1 inside a run, ECI designators, which
+   decode_data rejects by design, several fillers) and the claim that the script language is ALL the standard allows
+   rest on the independent reference encoder tools/props/refenc.py, which draws random legal streams with its own
+   reading of the standard; the implementation, tied to this model by the correspondence, must decode each. *)
 Example C04_example :
   let script := [SAscii [AChar 65; APair 49 50; AUpper 200]; SB256 [0; 255; 129]; SC40 false [72; 105; 33; 200] true TUnlatch;
-                 SX12 [65; 49; 13] TUnlatch; SC40 true [97; 98; 99] false TEnd; SAscii [AChar 66]] in
+                 SX12 [65; 49; 13] TUnlatch; SEdifact [65; 66; 67; 68; 69; 32] TUnlatch; SEdifact [94; 64; 33; 63] TUnlatch;
+                 SC40 true [97; 98; 99] false TEnd; SAscii [AChar 66]] in
   script_ok script 0 = true /\
-  decode_data (stream script 0) = Ok [65; 49; 50; 200; 0; 255; 129; 72; 105; 33; 200; 65; 49; 13; 97; 98; 99; 66] /\
+  decode_data (stream script 0) = Ok [65; 49; 50; 200; 0; 255; 129; 72; 105; 33; 200; 65; 49; 13; 65; 66; 67; 68; 69; 32; 94; 64; 33; 63; 97; 98; 99; 66] /\
+  script_ok [SEdifact [65; 66; 67; 68] TEnd; SAscii [AChar 69; AChar 70]] 0 = true /\
+  decode_data (stream [SEdifact [65; 66; 67; 68] TEnd; SAscii [AChar 69; AChar 70]] 0) = Ok [65; 66; 67; 68; 69; 70] /\
   script_ok [SAscii [AChar 65]] 7 = true /\ length (stream [SAscii [AChar 65]] 7) = 8%nat.
 Proof. vm_compute. repeat split. Qed.
